@@ -3,4 +3,7 @@ EXTENDS Integers
 NegOne == -1
 DEV_none == {}
 DEV_set_ConfirmClearsUnreportedBroadcast_DiscardRollbackPerCall_ErrorReplyIgnoresAddressing == {"ConfirmClearsUnreportedBroadcast", "DiscardRollbackPerCall", "ErrorReplyIgnoresAddressing"}
+DEV_set_ConfirmClearsUnreportedBroadcast == {"ConfirmClearsUnreportedBroadcast"}
+DEV_set_DiscardRollbackPerCall == {"DiscardRollbackPerCall"}
+DEV_set_ErrorReplyIgnoresAddressing == {"ErrorReplyIgnoresAddressing"}
 ====
